@@ -2,50 +2,80 @@
 from __future__ import annotations
 import itertools
 from xform import *   # noqa
-from fpy2 import strategies as S
-from fpy2.transform import ConstFold, CopyPropagate, DeadCodeEliminate
+import xgen
 
 PROP = 'C07'
+PASSES = ['ConstFold', 'CopyPropagate', 'DeadCodeEliminate']
 
-def single(cls):
-    def go(fn, R):
-        ast = cls.apply(fn.ast)
-        return fn.with_ast(ast)
-    return go
-
-def simp(**kw):
-    return lambda fn, R: S.simplify(fn, **kw)
-
-def order(classes):
-    def go(fn, R):
-        ast = fn.ast
-        for _ in range(3):
-            for c in classes: ast = c.apply(ast)
-        return fn.with_ast(ast)
-    return go
-
-def recipes():
-    rs = [('simplify', simp()),
-          ('const_fold', single(ConstFold)), ('copy_prop', single(CopyPropagate)), ('dce', single(DeadCodeEliminate))]
-    for cf, cfc, cfo, cp, dce in itertools.product([False, True], repeat=5):
+def all_recipes():
+    core = ['simplify()', "single('ConstFold')", "single('CopyPropagate')", "single('DeadCodeEliminate')"]
+    ext = []
+    for cf, cfc, cfo, cp, dce in itertools.product([0, 1], repeat=5):
         if not (cf or cp or dce): continue
-        if not cf and (cfc != True or cfo != True): continue
-        rs.append((f'simplify[cf={int(cf)},ctx={int(cfc)},op={int(cfo)},cp={int(cp)},dce={int(dce)}]',
-                   simp(enable_const_fold=cf, enable_const_fold_context=cfc, enable_const_fold_op=cfo, enable_copy_prop=cp, enable_dead_code_elim=dce)))
-    for perm in itertools.permutations([ConstFold, CopyPropagate, DeadCodeEliminate]):
-        rs.append(('order[' + ','.join(c.__name__ for c in perm) + ']', order(perm)))
-    return rs
+        if not cf and (cfc != 1 or cfo != 1): continue
+        if cf and cfc and cfo and cp and dce: continue
+        ext.append(f'simplify(cf={cf}, ctx={cfc}, op={cfo}, cp={cp}, dce={dce})')
+    ext += ["single('ConstFold', enable_context=False)", "single('ConstFold', enable_op=False)", "single('ConstFold', enable_context=False, enable_op=False)",
+            'constfold_shared()', 'constfold_shared(enable_context=False)', 'dce_shared()',
+            "copyprop('even')", "copyprop('odd')", "copyprop('first')", "copyprop('all')"]
+    for perm in itertools.permutations(PASSES):
+        a = ', '.join(repr(c) for c in perm)
+        ext += [f'order({a})', f'order({a}, rounds=1)', f'fixpoint({a})']
+    for a, b in itertools.permutations(PASSES, 2):
+        ext += [f'order({a!r}, {b!r}, rounds=2)', f'fixpoint({a!r}, {b!r})']
+    ext += ['repeat(simplify(), 2)', "seq(single('DeadCodeEliminate'), simplify(dce=0))", "seq(simplify(cf=0), single('ConstFold'))",
+            "repeat(single('CopyPropagate'), 3)", "repeat(single('DeadCodeEliminate'), 2)", "repeat(single('ConstFold'), 2)"]
+    return core, ext
 
-def classify(d):
+# programs on which simplify is judged AFTER another transformation has produced them
+PRE_LOOP = ['unroll_for(times=1)', 'unroll_for(times=2)', "unroll_for(times=1, strategy='STRICT')", 'split(2)', 'split(3)', "split('{k}')", 'elim_iter()', 'fuse()',
+            'unroll_while(times=1)', 'unroll_while(times=2)', 'seq(elim_iter(), unroll_for(times=1))', 'lift_context()']
+PRE_CALL = ['inline()', 'inline(recursive=False)', 'lift_context()', 'close()', 'seq(inline(), lift_context())', 'inline(0)']
+
+def recipes_for_factory(tier):
+    core, ext = all_recipes()
+    def recipes_for(prog, R):
+        if tier == 'quick': return core + R.sample(ext, 10)
+        return core + ext
+    return recipes_for
+
+def classify(d, fn, xf):
     return None
 
+def build_programs(seed, tier):
+    R = Prng(seed, 'C07:progs')
+    n_main, n_loop, n_call = (600, 220, 130) if tier == 'quick' else (520, 180, 100)
+    sc = float(os.environ.get('VERIF_XGEN_SCALE', '1'))   # debugging aid: shrink the run
+    n_main, n_loop, n_call = int(n_main * sc), int(n_loop * sc), int(n_call * sc)
+    progs = corpus_progs('c07_corpus.py', R, ctxs=(None, 'fp.IEEEContext(5, 16, fp.RM.RTZ)'))
+    stats = {}
+    for prop, n, pres in (('C07', n_main, None), ('C08', n_loop, PRE_LOOP), ('C09', n_call, PRE_CALL)):
+        ps, st = xgen.programs(prop, seed, n)
+        for k, v in st.items(): stats[f'{prop}:{k}'] = v
+        for p in ps:
+            d = p.to_dict()
+            d['args'] = p.args + xgen.random_args(R, p.kinds, 3)
+            if pres:
+                d['pre'] = R.choice(pres).replace('{k}', p.factors[0])
+                d['loops'] = None
+            progs.append(d)
+    return progs, stats
+
 def run(rep, tier, seed):
-    rs = recipes()
-    if tier == 'quick':
-        R0 = Prng(seed, 'C07r'); keep = rs[:4] + R0.sample(rs[4:], 6)
-    else: keep = rs
-    run_xforms(rep, tier, seed, PROP, 'c07_corpus.py', keep, gen_programs=25 if tier == 'quick' else 300,
-               n_inputs=4 if tier == 'quick' else 8, call_ctxs=(None, 'fp.IEEEContext(5, 16, fp.RM.RTZ)'), classify=classify)
-    rep.cov['rule'] = ('corpus of hand-written programs (copy past redefinition, alias mutation, folds under several contexts, signed zeros, dead branches) '
-                       '+ type-directed random programs; every enable_* combination, single passes, all pass orders; inputs incl. specials, list lengths 0..5; '
-                       'distinct = distinct (program, strategy, input, ctx)')
+    progs, stats = build_programs(seed, tier)
+    opts = {'inputs_cap': 7 if tier == 'quick' else None, 'ctx_every': 3 if tier == 'quick' else 2, 'max_traces': 6 if tier == 'quick' else 12, 'deadline_s': 900 if tier == 'quick' else 3600,
+            'prog_budget': 60 if tier == 'quick' else 240}
+    run_xforms(rep, tier, seed, PROP, progs, recipes_for_factory(tier), classify=classify, opts=opts)
+    summarize_cov(rep, stats)
+    rep.cov['rule'] = ('hand-written corpus + feature-axis synthesised programs (xgen: pairwise-covered axes idiom x name reuse x context pattern x inner context x destructuring '
+                       'x loop-control side effects x iterable kind x constant flavour x placement x rounding mode; seeded random filling) + the same judged on the OUTPUT of '
+                       'loop/call transformations; every enable_* combination, each pass alone (incl. flags, shared analyses, name subsets), all pass orders, fixpoints, repeats; '
+                       'designed inputs (every list length 0..7, 17, 33, ~257; specials) + random inputs, with and without a caller context; '
+                       'distinct = distinct (program, strategy, input, ctx) evaluations')
+
+def replay(rep, data):
+    return xform_replay(rep, data)
+
+def xform_replay(rep, data):
+    from xform import replay as rp
+    return rp(rep, data, PROP, classify)
